@@ -1,4 +1,4 @@
-//! Caller probes (`--prop C08 | C09 | C14 | C17`): small user crates, each compiled separately by rustc
+//! Caller probes (`--prop C08 | C09 | C14 | C17 | C19`): small user crates, each compiled separately by rustc
 //! against the current crate (harness::probe), that use a property's operations the way downstream code
 //! does and the harness crate itself does not:
 //!   * generic over the length / element type, stating exactly the bounds the trait impls publish
@@ -151,6 +151,28 @@ fn main() { println!("{}", sums(arr![1, 2, 3], arr![10, 20, 30])); println!("{}"
                 expect: "66\n66\n",
             },
         ],
+        "C19" => vec![Caller {
+            what: "zeroize() from a caller generic over T: Zeroize, and on an array of elements that BORROW (no 'static bound)",
+            externs: &["zeroize"],
+            src: r#"
+use zeroize::Zeroize;
+struct Secret<'a>(&'a mut [u8]);
+impl<'a> Zeroize for Secret<'a> { fn zeroize(&mut self) { for b in self.0.iter_mut() { *b = 0; } } }
+fn wipe<T: Zeroize, N: ArrayLength>(a: &mut GenericArray<T, N>) { a.zeroize() }
+fn main() {
+    let mut x = [1u8, 2, 3]; let mut y = [4u8, 5];
+    {
+        let mut a: GenericArray<Secret<'_>, U2> = GenericArray::from_array([Secret(&mut x), Secret(&mut y)]);
+        wipe(&mut a);
+    }
+    println!("{:?} {:?}", x, y);
+    let mut n = arr![7u32, 8, 9];
+    wipe(&mut n);
+    println!("{:?}", n.as_slice());
+}
+"#,
+            expect: "[0, 0, 0] [0, 0]\n[0, 0, 0]\n",
+        }],
         other => panic!("no caller programs for {}", other),
     }
 }
